@@ -530,7 +530,8 @@ PROPS['C16'] = dict(
         'the content token of an envelope is the SHA-256 prefix of its deterministic encoding with destination, '
         'proxy_record and proxy_next cleared',
         'spoofed or header-less envelopes are exercised under C17 (on the code as found they crash the process, D12)'],
-    models=x_proxy.MODELS_C16)
+    models=x_proxy.MODELS_C16,
+    parts=[dict(gen=None, trace_spec='ProxyTrace.tla'), dict(gen='route_echo', trace_spec='GoatTrace.tla')])
 PROPS['C17'] = dict(
     gen=x_proxy.generate_c17, trace_spec='ProxyTrace.tla', own_attribution=True,
     rule='source {another attached name, unknown name, dialable name, empty, header absent} x sender {attached, dialled} x '
